@@ -109,23 +109,26 @@ ProcHeldAt(acc, S, i, k, h, rates, avgs, O) ==
 
 \* ------------------------------------------------------------------ legacy PEG requests (C16)
 \* requests = sequence of [hash, idx, a, t, amt, want]; bank as Num
+\* (deviation DevPegPassTakesAllTxs: the implementation passes EVERY transaction of a batch that contains a PEG
+\*  request through the bank stage; another conversion of that batch is then counted against the bank in its own
+\*  units and credited a second time)
 PegWant(tx, h, rates, avgs) ==
-  LET c == Convert(h, tx.amt, Rate(rates, tx.t), Rate(avgs, tx.t), Rate(rates, "PEG"), Rate(avgs, "PEG"))
+  LET c == Convert(h, tx.amt, Rate(rates, tx.t), Rate(avgs, tx.t), Rate(rates, tx.conv), Rate(avgs, tx.conv))
   IN  IF c.ok THEN c.v ELSE NZero
 RECURSIVE PegReqsOf(_, _, _, _, _)
 PegReqsOf(e, h, rates, avgs, i) ==
   IF i > Len(e.txs) THEN <<>>
-  ELSE (IF e.txs[i].kind = "conv" /\ e.txs[i].conv = "PEG"
+  ELSE (IF e.txs[i].kind = "conv" /\ (e.txs[i].conv = "PEG" \/ "DevPegPassTakesAllTxs" \in Deviations)
         THEN <<[hash |-> e.hash, hrank |-> e.hrank, idx |-> i - 1, a |-> e.txs[i].a, t |-> e.txs[i].t, amt |-> e.txs[i].amt,
-                want |-> PegWant(e.txs[i], h, rates, avgs)]>>
+                dst |-> e.txs[i].conv, want |-> PegWant(e.txs[i], h, rates, avgs)]>>
         ELSE <<>>) \o PegReqsOf(e, h, rates, avgs, i + 1)
 RECURSIVE PegReqs(_, _, _, _, _)
 PegReqs(es, h, rates, avgs, k) == IF k > Len(es) THEN <<>> ELSE PegReqsOf(es[k], h, rates, avgs, 1) \o PegReqs(es, h, rates, avgs, k + 1)
 
-Refund(h, tx, yield, rates) ==
-  LET mx == Convert(h, tx.amt, Rate(rates, tx.t), Rate(rates, tx.t), Rate(rates, "PEG"), Rate(rates, "PEG"))
+Refund(h, q, yield, rates) ==
+  LET mx == Convert(h, q.amt, Rate(rates, q.t), Rate(rates, q.t), Rate(rates, q.dst), Rate(rates, q.dst))
       rest == IF mx.ok /\ NLeq(yield, mx.v) THEN NSub(mx.v, yield) ELSE NZero
-      back == Convert(h, rest, Rate(rates, "PEG"), Rate(rates, "PEG"), Rate(rates, tx.t), Rate(rates, tx.t))
+      back == Convert(h, rest, Rate(rates, q.dst), Rate(rates, q.dst), Rate(rates, q.t), Rate(rates, q.t))
   IN  IF back.ok THEN back.v ELSE NZero
 
 \* yields: floor share each, dust to the top request (ties: nondeterministic here, bound by observation)
@@ -146,7 +149,7 @@ PegApply(bal, reqs, y, dustIdx, h, rates, i) ==
   ELSE LET q == reqs[i]
            yld == IF i = dustIdx THEN NAdd(y.base[i], y.dust) ELSE y.base[i]
            rf == Refund(h, q, yld, rates)
-       IN  PegApply(Credit(Credit(bal, q.a, "PEG", yld), q.a, q.t, rf), reqs, y, dustIdx, h, rates, i + 1)
+       IN  PegApply(Credit(Credit(bal, q.a, q.dst, yld), q.a, q.t, rf), reqs, y, dustIdx, h, rates, i + 1)
 
 \* ------------------------------------------------------------------ new entries
 ArrivalStrict(acc, e, h) ==
